@@ -10,6 +10,7 @@ octave_write.corrections (lenient and strict) with compilations a subset of corr
 from __future__ import annotations
 
 import collections
+import zlib
 import os
 
 from vf import docprop, model, tools
@@ -147,10 +148,11 @@ def oracle(doc, sp, text, info, with_tools=None):
         except (LexerError, ParserError):
             pass  # C01's business
     _N["n"] += 1
-    if with_tools if with_tools is not None else (_N["n"] % 3 == 0):
+    if with_tools if with_tools is not None else (zlib.crc32(text.encode("utf-8", "surrogatepass")) % 3 == 0):
         if not curly:
             # the receipts are surfaced whatever output flags the call carries (rotated; the plain call every second time)
-            flags = VALIDATE_FLAGS[(_N["n"] // 3) % len(VALIDATE_FLAGS)] if with_tools is None else {}
+            # (chosen by a digest of the text, not by the call counter: counters correlate with the document index)
+            flags = VALIDATE_FLAGS[(zlib.crc32(text.encode("utf-8", "surrogatepass")) >> 4) % len(VALIDATE_FLAGS)] if with_tools is None else {}
             for fl in ([flags] if with_tools is None else VALIDATE_FLAGS):
                 r = tools.validate(content=text, schema="META", **fl)
                 if r.get("status") == "success":
